@@ -89,6 +89,7 @@ enum { KSYS_EPOLL_CREATE1, KSYS_EPOLL_CREATE, KSYS_EPOLL_PWAIT2, KSYS_TIMERFD, K
  * 3 forbidden (EPERM), 4 EINVAL (old eventfd2 flags) */
 extern int k_sys_mode[KSYS_MAX];
 extern int k_sys_calls[KSYS_MAX];
+extern int k_sys_fail_from[KSYS_MAX];
 extern int k_eintr_budget;		/* how many more waits/ctl/read/write may fail with EINTR */
 extern int k_eintr_io;			/* also interrupt epoll_ctl/read/write */
 extern int k_fd_limit;			/* descriptors >= this fail with EMFILE */
